@@ -19,6 +19,16 @@ CLAIMED = {
          'the wrapper mirror is tied to gin.config by generated calls with markers in every position; an independent Python statement of '
          'C10 (exact missing list parsed from the error, body not run, marker never received) is evaluated on the implementation.',
          BASE + 'Modelled, not verified: inspect signatures, Python argument binding; the missing list is parsed from the error message.'),
+ 'C11': ('Theorems parseKey_sound / bind_sound / bind_reject_unchanged / finalize_hooks_validated / method_needs_class hold for every '
+         'registry, key spelling and state; every binding path of the mirror goes through parseKey; the mirror is tied to gin.config by '
+         'generated binding attempts of every validity class through tuple / list / string keys, config text, blocks and finalize hooks, '
+         'with the whole store observed after each; an independent Python reference of the validity rule judges the implementation.',
+         BASE + 'Modelled, not verified: signature inspection; the store is observed through gin.config._CONFIG.'),
+ 'C12': ('Theorems locked_rejects_bind / locked_rejects_register / finalize_twice / finalize_outcome / unlock_restores (every body, nested, '
+         'raising) / lock_changes_only_by / hook_conflict_detected / finalize_rejects_invalid hold for every state and history; tied to '
+         'gin.config by random histories of finalize, nested unlock blocks (normal and raising exit), binds, registrations, clears and '
+         'data-driven hooks, with an independent Python reference state machine judging the implementation.',
+         BASE + 'Hooks are characterised by what they return or raise.'),
  'C08': ('Theorems inv_reachable / matching_spec / matching_nodup / getMatch_spec / getAll_spec hold for every history of '
          'insertions, removals and clears and every query; the trie mirror is tied to gin/selector_map.py by running the same random '
          'operation histories on both; an independent naive set-of-names oracle (incl. minimal_selector resolve-back and minimality, '
